@@ -40,6 +40,7 @@ SameValue(x, y) == IsFin(x) /\ IsFin(y) /\ XEq(x, y)
 OutSame(o1, o2) ==
     IF Ok(o1) THEN Ok(o2) /\ (IF Has(o1.ok, "u") THEN o1.ok.u = o2.ok.u /\ SameValue(o1.ok.a, o2.ok.a)
                               ELSE IF Has(o1.ok, "a") THEN SameValue(o1.ok.a, o2.ok.a)
+                              ELSE IF Has(o1.ok, "none") THEN Has(o2.ok, "none")
                               ELSE IF Has(o1.ok, "unit") THEN o1.ok.unit = o2.ok.unit /\ o1.ok.qty = o2.ok.qty
                               ELSE SameValue(o1.ok, o2.ok))
     ELSE ~Ok(o2)
@@ -51,6 +52,8 @@ ModelPrefix(e) ==
       [] e.ev = "Derived" -> "C04"
       [] e.ev = "Fit"     -> "C05"
       [] e.ev = "Lookup"  -> "C09"
+      [] e.ev = "Rate"    -> "C13"
+      [] e.ev = "Table"   -> "C14"
       [] OTHER            -> "C08"
 ModelClauses(e) ==
     IF ~Has(e, "model") THEN <<>>
